@@ -30,6 +30,9 @@ CHECKS = {
  "C04": ("bounded symbolic execution of JSONPointer parse/resolve/exists on symbolic member names and tokens vs an RFC 6901 reference",
          "Every node reachable: a symbolic member name (escape decoding off) or a Sigma name (decoding on and off) placed in four document shapes resolves through its RFC 6901 spelling to that very node; a last token applied to an array, primitive or object resolves exactly when RFC 6901 section 4 can evaluate it, otherwise raises a resolution error / returns the default, and exists() agrees.",
          "Obj: objects with a symbolic member name are pure-Python Mappings (a dict would realise the key); Sigma enumeration where the unicode-escape codec (C) sits in the way"),
+ "C05": ("bounded symbolic execution of every Op.apply / JSONPatch.apply on a symbolic document vs an RFC 6902 section 4 reference",
+         "One condition per operation kind x target kind (symbolic array index from 0 to len+2, '-', existing/new/digit-named member, root, missing or scalar parent, nested array) and per move/copy source x target pair: result as JSON value or error kind equals the reference; test equality decided with symbolic null/bool/int values on both sides; copy independence; sampled sequences of 2-3 operations.",
+         "pointers passed as token tuples; indices >= 0; fixed document spine with symbolic length and leaves"),
 }
 NA = {
  "C18": "process-level I/O (argparse FileType, stdin/stdout, exit status, stderr text): CrossHair's audit wall blocks file access, file contents pass through C json, and what remains is a finite option table whose exploration would be enumeration of concrete runs - no role for a solver",
